@@ -21,6 +21,7 @@ import (
 	"github.com/bluenviron/gohlslib/v2/pkg/playlist"
 	"github.com/bluenviron/mediacommon/v2/pkg/codecs/mpeg4audio"
 	"github.com/bluenviron/mediacommon/v2/pkg/formats/fmp4"
+	"github.com/bluenviron/mediacommon/v2/pkg/formats/mpegts"
 )
 
 // ---------- HTTP plumbing ----------
@@ -267,8 +268,9 @@ func verifIsVideoCodec(c codecs.Codec) bool {
 }
 
 func verifAudioTrack(name string) *Track {
+	// ACLOCK: a track clock rate different from the codec's sample rate (e.g. what an MPEG-TS source hands out)
 	return &Track{Codec: &codecs.MPEG4Audio{Config: mpeg4audio.Config{Type: 2, SampleRate: 44100, ChannelCount: 2}},
-		ClockRate: 44100, Name: name}
+		ClockRate: verifParam("ACLOCK", 44100), Name: name}
 }
 
 type vRun struct {
@@ -333,8 +335,10 @@ func verifSetup() *vRun {
 		r.tracks = []*Track{verifAudioTrack("a"), verifAudioTrack("b")}
 	case 4:
 		r.tracks = []*Track{{Codec: &codecs.Opus{ChannelCount: 2}, ClockRate: 48000}}
+	case 5: // the audio track listed before the video track: the video track still leads
+		r.tracks = []*Track{verifAudioTrack(""), verifVideoTrack()}
 	}
-	hasVideo := layout <= 1
+	hasVideo := layout <= 1 || layout == 5
 	segCount := verifParam("SEGCOUNT", 3)
 	if variant == MuxerVariantLowLatency && segCount < 7 {
 		segCount = 7
@@ -1286,7 +1290,8 @@ func indexOfStream(r *vRun, so *vStreamObs) int {
 
 func (r *vRun) decodeSegmentTS(so *vStreamObs, ord int, body []byte) {
 	if !verifSymbolic() {
-		return // native MPEG-TS demuxing is outside the replay (the ghost blobs exist only symbolically)
+		r.decodeSegmentTSNative(so, ord, body)
+		return
 	}
 	g := r.g
 	verifAssert("C01", "ts-segment-blobs", len(body)%4 == 0)
@@ -1341,6 +1346,67 @@ func (r *vRun) decodeSegmentTS(so *vStreamObs, ord int, body []byte) {
 		if so.taken[li] < len(t.emitted) {
 			verifAssert("C01", "no-unit-lost", t.emitted[so.taken[li]].seg > ord)
 		}
+	}
+}
+
+// decodeSegmentTSNative (native replay only): the segment is demuxed with mediacommon's real MPEG-TS reader and the
+// timestamps of every unit are compared with the ghost (bytes: the real writer adds parameter sets to key frames and
+// ADTS headers to audio, so only the order and the times are compared here).
+func (r *vRun) decodeSegmentTSNative(so *vStreamObs, ord int, body []byte) {
+	g := r.g
+	rd := &mpegts.Reader{R: bytes.NewReader(body)}
+	if err := rd.Initialize(); err != nil {
+		return // a segment without the data of every declared track cannot be opened by a real demuxer: not judged here
+	}
+	type rec struct {
+		li       int
+		pts, dts int64
+	}
+	var recs []rec
+	for _, mt := range rd.Tracks() {
+		mt := mt
+		li := -1
+		for k, ti := range so.tracks {
+			_, isV := mt.Codec.(*mpegts.CodecH264)
+			if g.tracks[ti].video == isV {
+				li = k
+			}
+		}
+		if li < 0 {
+			continue
+		}
+		switch mt.Codec.(type) {
+		case *mpegts.CodecH264:
+			rd.OnDataH264(mt, func(pts int64, dts int64, _ [][]byte) error {
+				recs = append(recs, rec{li, pts, dts})
+				return nil
+			})
+		case *mpegts.CodecMPEG4Audio:
+			rd.OnDataMPEG4Audio(mt, func(pts int64, aus [][]byte) error {
+				recs = append(recs, rec{li, pts, pts})
+				return nil
+			})
+		}
+	}
+	for {
+		if err := rd.Read(); err != nil {
+			break
+		}
+	}
+	for _, rc := range recs {
+		t := g.tracks[so.tracks[rc.li]]
+		idx := so.taken[rc.li]
+		if idx >= len(t.emitted) {
+			verifFail("C01", "decoded-unit-not-written")
+			continue
+		}
+		e := t.emitted[idx]
+		so.taken[rc.li]++
+		verifAssert("C01", "unit-in-its-segment", e.seg == ord)
+		// MPEG-TS carries 33-bit timestamps: equal modulo 2^33
+		const m33 = int64(1)<<33 - 1
+		verifAssert("C01", "unit-decode-time", (rc.dts-multiplyAndDivide(e.u.dts, 90000, int64(t.rate)))&m33 == 0)
+		verifAssert("C01", "unit-pts-offset", (rc.pts-multiplyAndDivide(e.u.dts+e.u.ptsOff, 90000, int64(t.rate)))&m33 == 0)
 	}
 }
 
